@@ -85,7 +85,10 @@ def run(ctx):
     big = [s for s in scen if s["sub"] in SEARCH and s["limit"] == "100" and s["query"] == "hit" and s["db"] == "valid" and s["plat"] in ("all", "none")
            and s["args"] != "unknownflag"]
     big = [s for s in big if s["verbose"]][:(18 if q else 200)] + [s for s in big if not s["verbose"]][:(6 if q else 60)]
-    scen = keep + big + extra + scen[:(600 if q else 25000)]
+    # --no-cross-platform without --platform (a combination outside the model's platform classes)
+    alone = [dict(s, plat="nocross") for s in scen if s["sub"] in SEARCH and s["plat"] == "linuxnocross" and s["db"] == "valid"
+             and s["query"] in ("hit", "typo", "padded") and s["args"] != "unknownflag"][:(24 if q else 400)]
+    scen = keep + big + alone + extra + scen[:(600 if q else 25000)]
     sf = os.path.join(ctx.work, "cli-run.jsonl")
     with open(sf, "w") as f:
         for s in scen:
